@@ -317,6 +317,55 @@ func writeDocument(e *common.Env, cfg config) (*document, error) {
 		}
 	}
 
+	// look-alikes: objects whose dictionaries LOOK like the objects exempt from encryption (metadata stream,
+	// cross-reference stream, object stream, /Encrypt dictionary, /ID array, signature) but are ordinary objects:
+	// exemption goes by object identity, so all of these are encrypted and must read back as written
+	{
+		type look struct {
+			dict func() pdf.Dict
+			body []byte
+		}
+		lm := func(tag string) []byte { return marker(e, "look"+tag) }
+		m1, m2, m3, m4, m5, m6, m7 := lm("meta"), lm("xref"), lm("objstm"), lm("ef"), lm("enc"), lm("sig"), lm("id")
+		o32 := append(append([]byte{}, m5...), make([]byte, 32)...)[:32]
+		looks := []look{
+			{func() pdf.Dict { return pdf.Dict{"Type": pdf.Name("Metadata"), "Subtype": pdf.Name("XML"), "LK": fresh(m1)} },
+				[]byte("<?xpacket begin='' id='W5M0MpCehiHzreSzNTczkc9d'?><x:xmpmeta xmlns:x='adobe:ns:meta/'>" + string(m1) + "</x:xmpmeta><?xpacket end='w'?>")},
+			{func() pdf.Dict {
+				return pdf.Dict{"Type": pdf.Name("XRef"), "Size": pdf.Integer(1), "W": pdf.Array{pdf.Integer(1), pdf.Integer(1), pdf.Integer(1)}, "LK": fresh(m2)}
+			}, append([]byte{0, 0, 0}, m2...)},
+			{func() pdf.Dict { return pdf.Dict{"Type": pdf.Name("ObjStm"), "N": pdf.Integer(0), "First": pdf.Integer(0), "LK": fresh(m3)} }, m3},
+			{func() pdf.Dict { return pdf.Dict{"Type": pdf.Name("EmbeddedFile"), "Params": pdf.Dict{"CheckSum": fresh(m4)}} }, m4},
+		}
+		for _, lk := range looks {
+			ref := w.Alloc()
+			ws, err := w.OpenStream(ref, lk.dict())
+			if err != nil {
+				return nil, err
+			}
+			if _, err := ws.Write(lk.body); err != nil {
+				return nil, err
+			}
+			if err := ws.Close(); err != nil {
+				return nil, err
+			}
+			doc.expected[ref] = "stream" + render(lk.dict())
+			doc.bodies[ref] = lk.body
+			doc.direct = append(doc.direct, ref)
+		}
+		mkEnc := func() pdf.Dict {
+			return pdf.Dict{"Filter": pdf.Name("Standard"), "V": pdf.Integer(4), "R": pdf.Integer(4), "O": fresh(o32), "U": fresh(o32), "P": pdf.Integer(-44),
+				"Sig": pdf.Dict{"Type": pdf.Name("Sig"), "Filter": pdf.Name("Adobe.PPKLite"), "Contents": fresh(m6), "ByteRange": pdf.Array{pdf.Integer(0), pdf.Integer(1)}},
+				"ID": pdf.Array{fresh(id0), fresh(id0), fresh(m7)}}
+		}
+		ref := w.Alloc()
+		if err := w.Put(ref, mkEnc()); err != nil {
+			return nil, err
+		}
+		doc.expected[ref] = render(mkEnc())
+		doc.direct = append(doc.direct, ref)
+	}
+
 	// an object with a larger number and a non-zero generation (both enter the object key)
 	{
 		hm := marker(e, "hi")
